@@ -45,6 +45,19 @@ def finite_state(s):
     return True
 
 
+def _is_logdet_of(value, theta):
+    if value is None or theta is None or not np.all(np.isfinite(theta)):
+        return False
+    sign, ld = np.linalg.slogdet(theta)
+    if sign <= 0 or not math.isfinite(value):
+        # not positive definite: only the exact value the code itself would store is accepted
+        with np.errstate(all="ignore"):
+            return feq(value, np.log(sign) + ld)
+    n = theta.shape[0]
+    kappa = ref.cond_number(theta)
+    return abs(value - ld) <= 1e3 * n * EPS * min(kappa, 1e12) + 64 * n * EPS * abs(ld) + 1e-300
+
+
 def cluster_diff(a, b, r3=True):
     """Names of the fields in which two cluster snapshots differ."""
     d = []
@@ -54,7 +67,10 @@ def cluster_diff(a, b, r3=True):
         if not beq(a[k], b[k]):
             d.append(k)
     if not feq(a["logdet"], b["logdet"]):
-        if not (r3 and a["logdet"] is None):
+        # R3: like the scoring alias, the stored log-determinant is a cache of a function of the MRF that the
+        # scoring step recomputes; it may be (re)set to a value that IS the log-determinant of the state's MRF
+        # within rounding (another factorisation gives another last bit), never to anything else
+        if not (r3 and (a["logdet"] is None or _is_logdet_of(b["logdet"], b["mrf"]))):
             d.append("logdet")
     if not beq(a["inv"], b["inv"]):
         # R3: the scoring alias is a cache of the MRF: it may be (re)set to "equal to the MRF"
